@@ -1,23 +1,37 @@
 (* C10 - job directory markers stay truthful whenever the job process dies.
    Statements only; every proof is `exact <lemma>`.
    `launch v d o dth` = one launch of the job script on directory d: the scheduler writes the pid file,
-   the runner (variant v: Fixed = with fixes/C10-1.diff, Prefix = the code as found) runs with body
-   outcome o, and dies as dth says (None: it ends by itself; Some (g, k, c): signal g arrives when k
-   effects of the undisturbed run have been performed, at a point of exception context c).
-   Every statement holds for all k (unbounded) and all contexts c.                                   *)
+   the runner (variant v) runs with body outcome o, and dies as dth says (None: it ends by itself;
+   Some (g, k, c): signal g arrives when k effects of the undisturbed run have been performed, at a
+   point of exception context c).  Variants: Prefix = the code of the pinned commit, Fixed = with
+   fixes/C10-1.diff (the code of /repo 3854c75), Guarded = with fixes/C10-2.diff as well (the failure
+   marker and the pid file are touched only by a runner that has the run lock).
+   `launch2 v d o dth j` = the same with a second death, SIGKILL after j effects of what the first
+   signal set off.  `double v d oh ow dw dh` = two processes for one job: H is in its body with the run
+   lock, W does what precedes lock.acquire and dies as dw says, then H goes on and ends as dh says.
+   Every statement holds for all k, j (unbounded) and all contexts c.                                 *)
 From Coq Require Import ZArith List.
 From XV Require Import model.Runner proofs.Runner_lemmas.
 Import ListNotations.
 
-(* whatever the instant and the kind of death: a success marker only if the body ran to completion,
-   the lock is free once the process is gone (OS assumption made explicit in `die`), and a success
-   marker that appears in this launch comes with a completed body of this launch                    *)
+(* whatever the instant and the kind of death: a success marker only if the body ran to completion
+   (Truthful = the two derived conjuncts of Inv), and a success marker that appears in this launch comes
+   with a completed body of this launch.  Inv d, the hypothesis, also says that the lock is free when
+   the launch starts.                                                                                  *)
 Theorem C10_kill_anywhere : forall v d o dth, Inv d ->
-  Inv (launch v d o dth) /\
+  Truthful (launch v d o dth) /\
   (d_done (launch v d o dth) = true ->
      d_done d = true \/ (success o = true /\ d_completed (launch v d o dth) = S (d_completed d))).
-Proof. exact kill_anywhere. Qed.
+Proof. exact kill_anywhere_truthful. Qed.
 Print Assumptions C10_kill_anywhere.
+
+(* ASSUMPTION, not a result: "the run lock dies with the process" is how the model ends a launch
+   (`die` sets d_lock := false: the behaviour of fcntl locks); true by reflexivity.  It is stated here
+   only so that nobody reads it into C10_kill_anywhere; the harness probes it after every death.      *)
+Theorem C10_lock_free_after_death_is_the_models_assumption :
+  forall v d o dth, d_lock (launch v d o dth) = false.
+Proof. exact lock_free_after_death_by_definition. Qed.
+Print Assumptions C10_lock_free_after_death_is_the_models_assumption.
 
 (* SIGTERM / SIGINT while the body runs: failure marker, no success marker (and no pid file) *)
 Theorem C10_term_in_body : forall v d o g c k,
@@ -51,26 +65,103 @@ Proof. exact relaunch_at_most_once. Qed.
 Print Assumptions C10_relaunch_at_most_once.
 
 (* a run that ends by itself - success, exception, sys.exit(c), other BaseException - leaves no pid
-   file (repaired runner) and has released the lock by its own code                                  *)
-Theorem C10_own_exit_no_pid : forall d o, d_pid (launch Fixed d o None) = false.
-Proof. exact own_exit_no_pid. Qed.
+   file (every repaired runner) ...                                                                  *)
+Theorem C10_own_exit_no_pid : forall v d o, v <> Prefix -> d_pid (launch v d o None) = false.
+Proof. exact own_exit_no_pid_v. Qed.
 Print Assumptions C10_own_exit_no_pid.
 
-Theorem C10_own_exit_unlocks : forall d o, In Unlock (effects Fixed o None d).
-Proof. exact own_exit_unlocks. Qed.
+(* ... and has given the lock back by its own code before the process is gone: the live process no
+   longer holds it at the end of its run, and the release is the last thing it does                    *)
+Theorem C10_own_exit_unlocks : forall v d o, v <> Prefix ->
+  lock (run_effs (effects v o None d) (boot d)) = false /\
+  last (effects v o None d) RegAtexit = Unlock.
+Proof. exact own_exit_lock_released. Qed.
 Print Assumptions C10_own_exit_unlocks.
 
 (* any finite sequence of launches, each with any outcome and any death *)
-Theorem C10_histories : forall v l d, Inv d -> Inv (history v d l).
-Proof. exact histories. Qed.
+Theorem C10_histories : forall v l d, Inv d -> Truthful (history v d l).
+Proof. exact histories_truthful. Qed.
 Print Assumptions C10_histories.
 
 Theorem C10_histories_fresh : forall v l,
   let d := history v fresh l in
-  Inv d /\
+  Truthful d /\
   (forall o, d_runs (launch v d o None) = (if d_done d then d_runs d else S (d_runs d))).
-Proof. exact histories_fresh. Qed.
+Proof. exact histories_fresh_truthful. Qed.
 Print Assumptions C10_histories_fresh.
+
+(* ---------------------------------------------------------------- a second death of the same process *)
+(* SIGKILL while the handler of the first signal (or the except clause / exit callback it leads to)
+   runs: the success marker and the body counters are those of the first death alone, so every
+   statement above about them carries over ...                                                       *)
+Theorem C10_kill_in_handler_same_markers : forall v d o dth j,
+  d_done (launch2 v d o dth j) = d_done (launch v d o (Some dth)) /\
+  d_runs (launch2 v d o dth j) = d_runs (launch v d o (Some dth)) /\
+  d_completed (launch2 v d o dth j) = d_completed (launch v d o (Some dth)) /\
+  d_lock (launch2 v d o dth j) = false.
+Proof. exact launch2_fields. Qed.
+Print Assumptions C10_kill_in_handler_same_markers.
+
+(* ... in particular along any sequence of launches that end by themselves, by one signal, or by two *)
+Theorem C10_histories_any_fate : forall v l d, Inv d -> Truthful (historyf v d l).
+Proof. exact histories_f. Qed.
+Print Assumptions C10_histories_any_fate.
+
+Theorem C10_relaunch_any_fate : forall v d o f,
+  let d' := launchf v d o f in
+  (d_done d = true -> d_done d' = true /\ d_runs d' = d_runs d /\ d_completed d' = d_completed d) /\
+  (d_runs d' = d_runs d \/ (d_done d = false /\ d_runs d' = S (d_runs d))).
+Proof. exact relaunch_f. Qed.
+Print Assumptions C10_relaunch_any_fate.
+
+(* ---------------------------------------------------------------- two processes for one job *)
+(* the literal handler (code of /repo 3854c75) refuted: H's body succeeds undisturbed, W gets SIGTERM
+   while it waits for the lock (its next effect would be Lock).  With H still in its body the directory
+   shows a failure marker and no pid file; at the end both markers are there although the body ran
+   once and succeeded.                                                                               *)
+Theorem C10_waiter_marks_failed_refuted :
+  exists d oh ow dw,
+    Inv d /\ d_done d = false /\ success oh = true /\
+    nth_error (trace Fixed ow d) 3 = Some Lock /\ dw = (STerm, 3, CTry) /\
+    d_failed (double_mid Fixed d ow dw) = Some 1%Z /\ d_pid (double_mid Fixed d ow dw) = false /\
+    d_lock (double_mid Fixed d ow dw) = true /\
+    d_done (double Fixed d oh ow dw None) = true /\ d_failed (double Fixed d oh ow dw None) = Some 1%Z /\
+    d_runs (double Fixed d oh ow dw None) = 1 /\ d_completed (double Fixed d oh ow dw None) = 1.
+Proof. exact waiter_marks_failed_refuted. Qed.
+Print Assumptions C10_waiter_marks_failed_refuted.
+
+(* repaired handler: whatever signal W gets, wherever (any index: 0-2 before one of its three private
+   steps, >= 3 waiting for the lock) and in whatever context, the directory when W is gone is the
+   directory H's body started with: no failure marker, the pid file, the lock held, the counters    *)
+Theorem C10_waiter_signal_changes_nothing : forall d ow dw, d_done d = false ->
+  double_mid Guarded d ow dw = snap (at_body d).
+Proof. exact waiter_silent. Qed.
+Print Assumptions C10_waiter_signal_changes_nothing.
+
+(* hence the double launch ends exactly like the launch of H alone, H dying (or not) at the same place:
+   everything proved about `launch` holds for it - also when both processes die                       *)
+Theorem C10_double_is_single : forall d oh ow dw dh, d_done d = false ->
+  double Guarded d oh ow dw dh = launch Guarded d oh (shift d dh).
+Proof. exact double_is_single. Qed.
+Print Assumptions C10_double_is_single.
+
+(* the markers of a double launch tell the truth about the one run of the body *)
+Theorem C10_double_truthful : forall d oh ow dw, d_done d = false ->
+  let d' := double Guarded d oh ow dw None in
+  d_done d' = success oh /\
+  (success oh = true -> d_failed d' = None) /\
+  (success oh = false -> oh <> OBase -> d_failed d' <> None) /\
+  d_pid d' = false /\
+  d_runs d' = S (d_runs d) /\
+  d_completed d' = (if success oh then S (d_completed d) else d_completed d).
+Proof. exact double_truthful. Qed.
+Print Assumptions C10_double_truthful.
+
+Theorem C10_double_both_may_die : forall d oh ow dw dh, Inv d -> d_done d = false ->
+  Truthful (double Guarded d oh ow dw dh) /\
+  (d_done (double Guarded d oh ow dw dh) = true -> success oh = true).
+Proof. exact double_inv. Qed.
+Print Assumptions C10_double_both_may_die.
 
 (* record of the defect of the pinned commit: the literal runner keeps the pid file after a success *)
 Theorem C10_pid_left_on_success_refuted :
